@@ -236,7 +236,7 @@ func ruleU3(c *Ctx, id string) {
 				R.Fail(id, fmt.Sprintf("%sVerf#%d from the server instance", key, i+1), P.Pos(st.Pos()), "the verifier is a field of the Nfs object", "the verifier does not come from per-instance state (constant or per-request value)")
 				continue
 			}
-			okW, src := true, ""
+			okW, src, coarse := true, "", ""
 			for _, f2 := range P.RepoFuncs("nfs") {
 				for _, w := range FieldWrites(f2) {
 					if w.Type == V.Nfs && w.Field == fl {
@@ -248,8 +248,11 @@ func ruleU3(c *Ctx, id string) {
 								if cl, ok := v.(*ssa.Call); ok {
 									if cal := cl.Call.StaticCallee(); cal != nil && funcPkg(cal) != nil {
 										pp := funcPkg(cal).Path()
-										if pp == "time" || pp == "math/rand" || pp == "crypto/rand" {
-											src = pp
+										// sources fine enough to differ between two instances started in quick succession
+										if (pp == "time" && cal.Name() == "UnixNano") || pp == "math/rand" || pp == "crypto/rand" {
+											src = pp + "." + cal.Name()
+										} else if pp == "time" && (cal.Name() == "Unix" || cal.Name() == "UnixMilli" || cal.Name() == "UnixMicro") {
+											coarse = cal.Name()
 										}
 									}
 								}
@@ -258,7 +261,7 @@ func ruleU3(c *Ctx, id string) {
 					}
 				}
 			}
-			R.Check(okW && src != "", id, fmt.Sprintf("%sVerf#%d per-instance provenance", key, i+1), P.Pos(st.Pos()), "Nfs."+fl+" is written only during construction, from a call into time/rand", "constructor-only writer; source "+src, "the verifier is the same in every instance (or changes while serving)")
+			R.Check(okW && src != "" && coarse == "", id, fmt.Sprintf("%sVerf#%d per-instance provenance", key, i+1), P.Pos(st.Pos()), "Nfs."+fl+" is written only during construction, from a nanosecond clock or a random source", "constructor-only writer; source "+src, "the verifier is the same in every instance, changes while serving, or comes from a coarse clock (time."+coarse+"): two instances started in quick succession share it and a client cannot detect lost unstable data")
 		}
 	}
 }
